@@ -160,8 +160,8 @@ pub fn random_layout(t: &mut Tape) -> Layout {
     let mut struct_defined = false;
     let mut name_pool_idx = 0usize;
     // ordinary names interleaved with shapes whose wrapper identifier differs from the name Tauri
-    // registers (raw identifiers keep their `r#` in `stringify!`, underscores survive) and with pairs that differ only in underscores (`_ping` / `ping`, `a__b` / `a_b`): distinct commands for Tauri, one camelCase identifier
-    let names = ["get_user", "r#type", "save", "list_items", "_ping", "do_work2", "fetch_all_the_things", "r#move", "x", "open_file_", "a__b", "ping", "run_task", "a_b", "compute", "reset_state", "load_v2", "sync_now", "q1", "export_data_set"];
+    // registers (raw identifiers keep their `r#` in `stringify!`, underscores survive) and with pairs that differ only in underscores (`_ping` / `ping`, `a__b` / `a_b`): distinct commands for Tauri, one camelCase identifier; `ping2` is the name a numbered duplicate of `ping` would take
+    let names = ["get_user", "_ping", "ping", "ping2", "r#type", "save", "list_items", "a__b", "a_b", "do_work2", "r#move", "fetch_all_the_things", "x", "open_file_", "run_task", "compute", "reset_state", "load_v2", "sync_now", "q1", "export_data_set"];
     let mut fresh_name = |prefix: &str| {
         name_pool_idx += 1;
         format!("{}{}", prefix, name_pool_idx)
